@@ -123,7 +123,7 @@ def run_unit(unit, repo=None, rlimit=30, vacuity=False, outdir=OUT, seed=None, k
     res = {'unit': unit, 'status': 'ok', 'engine_errors': [], 'failures': [], 'functions': [], 'wall_s': 0.0}
     try:
         if vacuity:
-            path, meta = vx_gen.generate_vacuity(unit, outdir, repo or vx_gen.REPO)
+            path, meta = vx_gen.generate_vacuity(unit, outdir, repo or vx_gen.REPO, vacuity)
         else:
             path, meta = vx_gen.generate(unit, outdir, repo or vx_gen.REPO)
     except ExtractError as e:
@@ -138,7 +138,7 @@ def run_unit(unit, repo=None, rlimit=30, vacuity=False, outdir=OUT, seed=None, k
     res['trust'] = scan_trust(gen_text)
     logdir = path[:-3] + '.log'
     shutil.rmtree(logdir, ignore_errors=True)
-    cmd = ['verus', os.path.basename(path), '--output-json', '--time-expanded', '--multiple-errors', '40',
+    cmd = ['verus', os.path.basename(path), '--output-json', '--time-expanded', '--multiple-errors', '0' if vacuity else '40',
            '--error-format=json', '--rlimit', str(rlimit), '--no-report-long-running']
     if keep_air:
         cmd += ['--log', 'air', '--log-dir', os.path.basename(logdir)]
@@ -176,7 +176,7 @@ def run_unit(unit, repo=None, rlimit=30, vacuity=False, outdir=OUT, seed=None, k
         res['smt_ms'] = js.get('times-ms', {}).get('smt', {}).get('smt-run', 0)
     per_fn_asserts, kinds = count_air_asserts(logdir) if keep_air else ({}, {})
     res['assert_kinds'] = kinds
-    crate = unit
+    crate = os.path.splitext(os.path.basename(path))[0]
     for f in meta['funcs']:
         key_suffix = '::' + f['name']
         cands = [k for k in fb if k.endswith(key_suffix) and (f['impl'] == '-' or impl_type(f['impl']) in k)]
@@ -297,6 +297,6 @@ def template_props_at(gen_lines, line):
 
 
 if __name__ == '__main__':
-    r = run_unit(sys.argv[1], vacuity='--vacuity' in sys.argv)
+    r = run_unit(sys.argv[1], vacuity=(sys.argv[sys.argv.index('--vacuity') + 1] if '--vacuity' in sys.argv else False))
     r.pop('meta', None)
-    print(json.dumps(r, indent=1)[:20000])
+    print(json.dumps(r, indent=1))
